@@ -152,4 +152,393 @@ theorem frames_append (a b : Bytes) :
         rw [ih, h]
         simp
 
+/-! ### the buffered reader -/
+
+/-- a read schedule in which no delivery is empty (an empty delivery is EOF) -/
+def NoEmpty (reads : List Bytes) : Prop := ∀ c ∈ reads, c ≠ []
+
+theorem readUntil_spec (reads : List Bytes) (hne : NoEmpty reads) (buf acc : Bytes) :
+    match splitNul (buf ++ reads.flatten) with
+    | some (pre, post) =>
+      ∃ rd', readUntil buf reads acc = (acc ++ pre, true, rd') ∧
+        rd'.buf ++ rd'.reads.flatten = post ∧ NoEmpty rd'.reads
+    | none => readUntil buf reads acc = (acc ++ (buf ++ reads.flatten), false, { buf := [], reads := [] }) := by
+  induction reads generalizing buf acc with
+  | nil =>
+    simp only [List.flatten_nil, List.append_nil]
+    unfold readUntil
+    cases h : splitNul buf with
+    | none => simp
+    | some pq =>
+      obtain ⟨p, q⟩ := pq
+      exact ⟨{ buf := q, reads := [] }, by simp, by simp, by simp [NoEmpty]⟩
+  | cons c cs ih =>
+    have hc : c ≠ [] := hne c (by simp)
+    have hcs : NoEmpty cs := fun x hx => hne x (by simp [hx])
+    unfold readUntil
+    cases h : splitNul buf with
+    | some pq =>
+      obtain ⟨p, q⟩ := pq
+      rw [splitNul_append, h]
+      exact ⟨{ buf := q, reads := c :: cs }, by simp, by simp, hne⟩
+    | none =>
+      simp only [hc, if_false]
+      have e : splitNul (buf ++ (c :: cs).flatten) =
+          (splitNul (c ++ cs.flatten)).map (fun pq => (buf ++ pq.1, pq.2)) := by
+        rw [splitNul_append, h]; simp
+      rw [e]
+      have := ih hcs c (acc ++ buf)
+      cases h2 : splitNul (c ++ cs.flatten) with
+      | none =>
+        rw [h2] at this
+        simp only [Option.map_none]
+        rw [this]; simp
+      | some pq =>
+        obtain ⟨p, q⟩ := pq
+        rw [h2] at this
+        obtain ⟨rd', e1, e2, e3⟩ := this
+        simp only [Option.map_some]
+        exact ⟨rd', by rw [e1]; simp, e2, e3⟩
+
+/-- the stream after its first `n` complete messages -/
+def afterFrames : Nat → Bytes → Bytes
+  | 0, bs => bs
+  | n + 1, bs =>
+    match splitNul bs with
+    | some (_, post) => afterFrames n post
+    | none => []
+
+/-! ### `handle` refines `serve` on the frames of the stream -/
+
+theorem handleLoop_spec (c : Consts) (svc : Service) (dec : Bytes → Frame) :
+    ∀ (fuel : Nat) (rd : Rd), NoEmpty rd.reads →
+      (rd.buf ++ rd.reads.flatten).length < fuel →
+      let total := rd.buf ++ rd.reads.flatten
+      let o := serve c svc ((frames total).1.map dec)
+      let h := handleLoop c svc dec fuel rd
+      h.groups = o.groups ∧ h.status = o.status ∧
+      (o.status = .eof → h.tail = (frames total).2 ∧ h.rest = []) ∧
+      (o.status = .err → h.tail = []) ∧
+      (∀ i, o.status = .upgraded i → h.tail ++ h.rest.flatten = afterFrames o.consumed total) := by
+  intro fuel
+  induction fuel with
+  | zero => intro rd _ hlt; simp at hlt
+  | succ fuel ih =>
+    intro rd hne hlt
+    have hsp := readUntil_spec rd.reads hne rd.buf []
+    simp only
+    rw [frames_eq]
+    unfold handleLoop
+    cases hs : splitNul (rd.buf ++ rd.reads.flatten) with
+    | none =>
+      rw [hs] at hsp
+      simp only at hsp
+      rw [hsp]
+      simp [serve]
+    | some pq =>
+      obtain ⟨pre, post⟩ := pq
+      rw [hs] at hsp
+      obtain ⟨rd', e1, e2, e3⟩ := hsp
+      rw [e1]
+      simp only [List.nil_append, List.map_cons]
+      have hlen := splitNul_length hs
+      cases hd : dec pre with
+      | bad => simp [serve]
+      | req r =>
+        simp only [serve]
+        by_cases hok : (callOne c svc r).ok = true
+        · simp only [hok, Bool.not_true, Bool.false_eq_true, if_false]
+          cases hup : (callOne c svc r).upgraded with
+          | some i =>
+            simp [afterFrames, hs, e2]
+          | none =>
+            have hlt' : (rd'.buf ++ rd'.reads.flatten).length < fuel := by
+              rw [e2]; omega
+            have := ih rd' e3 hlt'
+            simp only [e2] at this
+            obtain ⟨g, st, t1, t2, t3⟩ := this
+            refine ⟨by simp [g], by simp [st], ?_, ?_, ?_⟩
+            · intro he; simpa using t1 he
+            · intro he; simpa using t2 he
+            · intro i he
+              have := t3 i he
+              simp only [afterFrames, hs]
+              simpa using this
+        · simp [hok]
+
+theorem handle_spec (c : Consts) (svc : Service) (dec : Bytes → Frame) (reads : List Bytes)
+    (hne : NoEmpty reads) :
+    let total := reads.flatten
+    let o := serve c svc ((frames total).1.map dec)
+    let h := handle c svc dec reads
+    h.groups = o.groups ∧ h.status = o.status ∧
+    (o.status = .eof → h.tail = (frames total).2 ∧ h.rest = []) ∧
+    (o.status = .err → h.tail = []) ∧
+    (∀ i, o.status = .upgraded i → h.tail ++ h.rest.flatten = afterFrames o.consumed total) := by
+  have := handleLoop_spec c svc dec (totalLen reads + 1) { buf := [], reads := reads } hne
+    (by simp [totalLen])
+  simpa [handle] using this
+
+/-! ### `serve` over concatenated frame lists -/
+
+theorem serve_consumed_le (c : Consts) (svc : Service) (fs : List Frame) :
+    (serve c svc fs).consumed ≤ fs.length := by
+  induction fs with
+  | nil => simp [serve]
+  | cons f fs ih =>
+    cases f with
+    | bad => simp [serve]
+    | req r =>
+      simp only [serve]
+      split
+      · simp
+      · split <;> simp <;> omega
+
+theorem serve_eof_consumed (c : Consts) (svc : Service) (fs : List Frame)
+    (h : (serve c svc fs).status = .eof) : (serve c svc fs).consumed = fs.length := by
+  induction fs with
+  | nil => simp [serve]
+  | cons f fs ih =>
+    cases f with
+    | bad => simp [serve] at h
+    | req r =>
+      simp only [serve] at h ⊢
+      split at h
+      · simp at h
+      · split at h
+        · simp at h
+        · rename_i hok _ hup
+          simp only [hok] 
+          simp at h ⊢
+          exact ih h
+
+theorem serve_append_eof (c : Consts) (svc : Service) (fs1 fs2 : List Frame)
+    (h : (serve c svc fs1).status = .eof) :
+    serve c svc (fs1 ++ fs2) =
+      { groups := (serve c svc fs1).groups ++ (serve c svc fs2).groups,
+        status := (serve c svc fs2).status,
+        consumed := fs1.length + (serve c svc fs2).consumed } := by
+  induction fs1 with
+  | nil => simp [serve]
+  | cons f fs ih =>
+    cases f with
+    | bad => simp [serve] at h
+    | req r =>
+      simp only [serve, List.cons_append] at h ⊢
+      split at h
+      · simp at h
+      · split at h
+        · simp at h
+        · rename_i hok _ hup
+          simp only [hok]
+          simp at h
+          rw [ih h]
+          simp; omega
+
+theorem serve_append_stop (c : Consts) (svc : Service) (fs1 fs2 : List Frame)
+    (h : (serve c svc fs1).status ≠ .eof) :
+    serve c svc (fs1 ++ fs2) = serve c svc fs1 := by
+  induction fs1 with
+  | nil => simp [serve] at h
+  | cons f fs ih =>
+    cases f with
+    | bad => simp [serve]
+    | req r =>
+      simp only [serve, List.cons_append] at h ⊢
+      split
+      · rfl
+      · split
+        · rfl
+        · rename_i hok _ hup
+          simp only [hok, hup] at h
+          simp at h
+          rw [ih h]
+
+/-! ### afterFrames -/
+
+theorem afterFrames_frames (k : Nat) (b : Bytes) :
+    ∀ (n : Nat) (a : Bytes), a.length = n →
+      afterFrames ((frames a).1.length + k) (a ++ b) = afterFrames k ((frames a).2 ++ b) := by
+  intro n
+  induction n using Nat.strongRecOn with
+  | _ n ih =>
+    intro a ha
+    rw [frames_eq]
+    cases hs : splitNul a with
+    | none => simp
+    | some pq =>
+      obtain ⟨pre, post⟩ := pq
+      have hlen := splitNul_length hs
+      simp only [List.length_cons]
+      have e : (frames post).1.length + 1 + k = ((frames post).1.length + k) + 1 := by omega
+      rw [e]
+      simp only [afterFrames]
+      rw [splitNul_append, hs]
+      simp only
+      exact ih post.length (by omega) post rfl
+
+theorem afterFrames_append (b : Bytes) :
+    ∀ (n : Nat) (a : Bytes), n ≤ (frames a).1.length →
+      afterFrames n (a ++ b) = afterFrames n a ++ b := by
+  intro n
+  induction n with
+  | zero => intro a _; simp [afterFrames]
+  | succ n ih =>
+    intro a hle
+    rw [frames_eq] at hle
+    simp only [afterFrames]
+    cases hs : splitNul a with
+    | none => rw [hs] at hle; simp at hle
+    | some pq =>
+      obtain ⟨pre, post⟩ := pq
+      rw [hs] at hle
+      simp only [List.length_cons] at hle
+      rw [splitNul_append, hs]
+      simp only
+      exact ih post (by omega)
+
+/-! ### chop -/
+
+theorem chopFuel_flatten (cap : Nat) : ∀ (f : Nat) (l : Bytes), l.length ≤ f → 0 < cap →
+    (chopFuel cap f l).flatten = l := by
+  intro f
+  induction f with
+  | zero => intro l h _; simp at h; simp [chopFuel, h]
+  | succ f ih =>
+    intro l h hc
+    simp only [chopFuel]
+    by_cases hl : l = []
+    · simp [hl]
+    · simp only [hl, if_false]
+      have hc0 : cap ≠ 0 := by omega
+      simp only [hc0, if_false, List.flatten_cons]
+      rw [ih (l.drop cap) (by simp; omega) hc]
+      simp
+
+theorem chopFuel_noEmpty (cap : Nat) : ∀ (f : Nat) (l : Bytes), 0 < cap →
+    NoEmpty (chopFuel cap f l) := by
+  intro f
+  induction f with
+  | zero => intro l _; simp [chopFuel, NoEmpty]
+  | succ f ih =>
+    intro l hc
+    simp only [chopFuel]
+    by_cases hl : l = []
+    · simp [hl, NoEmpty]
+    · simp only [hl, if_false]
+      have hc0 : cap ≠ 0 := by omega
+      simp only [hc0, if_false]
+      intro x hx
+      simp at hx
+      cases hx with
+      | inl h => 
+        rw [h]
+        intro e
+        have := congrArg List.length e
+        simp at this
+        cases this with
+        | inl h => omega
+        | inr h => exact hl h
+      | inr h => exact ih (l.drop cap) hc x h
+
+theorem chop_flatten (cap : Nat) (l : Bytes) (hc : 0 < cap) : (chop cap l).flatten = l :=
+  chopFuel_flatten cap l.length l (Nat.le_refl _) hc
+
+theorem chop_noEmpty (cap : Nat) (l : Bytes) (hc : 0 < cap) : NoEmpty (chop cap l) :=
+  chopFuel_noEmpty cap l.length l hc
+
+/-! ### the re-feeding loop refines `serve` on the frames of the whole stream -/
+
+def FeedInv (c : Consts) (svc : Service) (dec : Bytes → Frame) (total : Bytes) (st : FeedSt) : Prop :=
+  let o := serve c svc ((frames total).1.map dec)
+  st.out = o.groups.flatten ∧
+  match o.status with
+  | .eof => st.status = .eof ∧ st.tail = (frames total).2 ∧ st.iface = none ∧
+      st.stopped = false ∧ st.seen = []
+  | .err => st.status = .err ∧ st.stopped = true
+  | .upgraded i => st.status = .upgraded i ∧ st.iface = some i ∧ st.stopped = false ∧
+      st.seen ++ st.tail = afterFrames o.consumed total
+
+theorem feedStep_inv (c : Consts) (svc : Service) (dec : Bytes → Frame) (cap : Nat) (hc : 0 < cap)
+    (total chunk : Bytes) (st : FeedSt) (h : FeedInv c svc dec total st) :
+    FeedInv c svc dec (total ++ chunk) (feedStep c svc dec cap st chunk) := by
+  unfold FeedInv at h ⊢
+  obtain ⟨hout, hst⟩ := h
+  simp only at hout hst ⊢
+  have hfr := frames_append total chunk
+  have hmap : (frames (total ++ chunk)).1.map dec =
+      (frames total).1.map dec ++ (frames ((frames total).2 ++ chunk)).1.map dec := by
+    rw [hfr]; simp
+  cases hs : (serve c svc ((frames total).1.map dec)).status with
+  | err =>
+    rw [hs] at hst
+    obtain ⟨h1, h2⟩ := hst
+    have hstop := serve_append_stop c svc ((frames total).1.map dec)
+      ((frames ((frames total).2 ++ chunk)).1.map dec) (by rw [hs]; simp)
+    rw [hmap, hstop, hs]
+    simp [feedStep, h2, hout, h1]
+  | upgraded i =>
+    rw [hs] at hst
+    obtain ⟨h1, h2, h3, h4⟩ := hst
+    have hstop := serve_append_stop c svc ((frames total).1.map dec)
+      ((frames ((frames total).2 ++ chunk)).1.map dec) (by rw [hs]; simp)
+    rw [hmap, hstop, hs]
+    have hle : (serve c svc ((frames total).1.map dec)).consumed ≤ (frames total).1.length := by
+      have := serve_consumed_le c svc ((frames total).1.map dec)
+      simpa using this
+    simp only [feedStep, h3, h2]
+    refine ⟨hout, rfl, rfl, rfl, ?_⟩
+    rw [afterFrames_append chunk _ total hle, ← h4]
+    simp
+  | eof =>
+    rw [hs] at hst
+    obtain ⟨h1, h2, h3, h4, h5⟩ := hst
+    have happ := serve_append_eof c svc ((frames total).1.map dec)
+      ((frames ((frames total).2 ++ chunk)).1.map dec) hs
+    rw [hmap, happ]
+    simp only [feedStep, h4, h3, h2]
+    have hsp := handle_spec c svc dec (chop cap ((frames total).2 ++ chunk))
+      (chop_noEmpty cap _ hc)
+    simp only [chop_flatten cap _ hc] at hsp
+    obtain ⟨g, s, t1, t2, t3⟩ := hsp
+    simp only [Bool.false_eq_true, if_false]
+    cases hs2 : (serve c svc ((frames ((frames total).2 ++ chunk)).1.map dec)).status with
+    | err =>
+      rw [hs2] at s
+      simp only [s]
+      simp [hout, g]
+    | eof =>
+      rw [hs2] at s
+      simp only [s]
+      have := t1 hs2
+      simp [hout, g, this.1, hfr, h5]
+    | upgraded i =>
+      rw [hs2] at s
+      simp only [s]
+      have := t3 i hs2
+      refine ⟨by simp [hout, g], trivial, trivial, trivial, ?_⟩
+      simp only [h5, List.nil_append, this]
+      have e := afterFrames_frames
+        (serve c svc ((frames ((frames total).2 ++ chunk)).1.map dec)).consumed chunk
+        total.length total rfl
+      simp only [List.length_map]
+      rw [e]
+
+theorem feed_inv_from (c : Consts) (svc : Service) (dec : Bytes → Frame) (cap : Nat) (hc : 0 < cap)
+    (chunks : List Bytes) : ∀ (total : Bytes) (st : FeedSt), FeedInv c svc dec total st →
+      FeedInv c svc dec (total ++ chunks.flatten) (chunks.foldl (feedStep c svc dec cap) st) := by
+  induction chunks with
+  | nil => intro total st h; simpa using h
+  | cons ch chs ih =>
+    intro total st h
+    have := ih (total ++ ch) _ (feedStep_inv c svc dec cap hc total ch st h)
+    simpa [List.foldl] using this
+
+theorem feed_inv (c : Consts) (svc : Service) (dec : Bytes → Frame) (cap : Nat) (hc : 0 < cap)
+    (chunks : List Bytes) : FeedInv c svc dec chunks.flatten (feed c svc dec cap chunks) := by
+  have h0 : FeedInv c svc dec [] ({} : FeedSt) := by
+    simp [FeedInv, frames, serve]
+  have := feed_inv_from c svc dec cap hc chunks [] {} h0
+  simpa [feed] using this
+
 end VV
